@@ -308,7 +308,7 @@ CLAIMED = {
               "the reader gives a (ring, position) is a bijection between the positions of an n-ring core and 0..3n(n-1), and an "
               "accepted Assignment line names existing positions only; tied to parse_assignment_section (verdict, indices, ring and "
               "position of every entry).  PARTIAL: the model is tied to the real reader by differential classification on valid "
-              "generated inputs and single-fault perturbations (40 fault classes across the input keys); independently every "
+              "generated inputs and single-fault perturbations (41 fault classes across the input keys); independently every "
               "invalid class must end in SystemExit before any temperature is computed and every valid generated input must "
               "be set up and swept (60 planes) without exception or hang; a single-key perturbation sweep (every numeric "
               "leaf of the input incl. FuelModel / PinModel / SpacerGrid, four extreme values each) must end in a clean "
